@@ -82,7 +82,7 @@ def build_cluster(spec):
     return cl
 
 
-HARNESS_ONLY = {"churn", "move_results", "drop_results", "reread_fetch", "reread_poll", "sleep_ms"}
+HARNESS_ONLY = {"churn", "move_results", "drop_results", "reread_fetch", "reread_poll", "sleep_ms", "live_bytes"}
 
 
 class Plan:
@@ -192,12 +192,17 @@ def run_case(runner, case, stop_on_disagree=False):
             op, model_op = item, None
             cl.mutate = None
             net.raw_reply = None
-        if op.name in HARNESS_ONLY:
-            # ops that only concern the harness's handling of results (C18): the model is not involved
+        if op.name in HARNESS_ONLY or (isinstance(item, dict) and item.get("impl_only")):
+            # ops that only concern the harness's handling of results (C18): the model is not involved.
+            # "impl_only": a call of the client whose data are too large for the extracted model to evaluate in reasonable time (a message
+            # set of several MiB): it is run on the implementation and judged by the property oracle alone; it must be the last client
+            # call of its case (the model does not follow it), and the evidence counts it separately
+            nreq0, nrep0 = len(net.requests), len(getattr(net, "replies", []))
             res, maxalloc = runner.h.call(op, net)
             rec = {"op": op, "impl": res, "model": res, "impl_canon": res, "model_canon": res, "impl_trace": [], "model_trace": [],
-                   "maxalloc": maxalloc, "requests": [], "replies": [], "raw_events": net.take_events(), "leftover": {}, "unread": {},
-                   "result_agree": True, "trace_agree": True, "agree": True}
+                   "maxalloc": maxalloc, "requests": net.requests[nreq0:], "replies": getattr(net, "replies", [])[nrep0:],
+                   "raw_events": net.take_events(), "leftover": {}, "unread": {},
+                   "result_agree": True, "trace_agree": True, "agree": True, "impl_only": op.name not in HARNESS_ONLY}
         elif op.name == "consume_messageset":
             # the model has no MessageSets object: translate to the equivalent consume_message
             k = op.args[0]
